@@ -24,7 +24,7 @@ Task: make a small change to the project's source code (NOT to its tests) such t
        cd {wt} && cargo nextest run --workspace --no-fail-fast --offline --test-threads 8
      (fallback if nextest is unavailable: cargo test --workspace --no-fail-fast --offline). Expect 280 tests passing. Run it and confirm.
   2. the property above is violated by the changed code -- but only in circumstances that need something SPECIFIC to manifest: a particular multi-step sequence of key events, a particular timing/gap at a boundary, an unusual (but accepted) configuration or input, a capacity limit being crossed, or two cooperating sites that each look fine alone. Do NOT make a change that ordinary use (any key press) would expose at once, and do not make a change the existing tests catch. It should look like a plausible mistake a maintainer could make in a refactor or optimisation (off-by-one in a timeout comparison, wrong ordering, forgotten state reset, a dropped conjunct, wrong index, etc.).
-  3. you write a demonstration: a new Rust test (e.g. added to src/tests/sim_tests/ or keyberon/parser tests, using the project's existing simulation helpers such as `simulate(cfg, "d:a t:10 u:a t:10")`) or a small program, that FAILS with your change and PASSES on the unchanged code. Verify both directions yourself (use `git stash` / `git diff` to switch).
+  3. you write a demonstration: a new Rust test (e.g. added to src/tests/sim_tests/ or keyberon/parser tests, using the project's existing simulation helpers such as `simulate(cfg, "d:a t:10 u:a t:10")`) or a small program, that FAILS with your change and PASSES on the unchanged code. Verify both directions yourself. Do NOT use `git stash` (the stash is shared with other people's worktrees of the same repository and they would pop your entry); switch with `git diff > file`, `git checkout -- <file>`, `git apply file`.
 
 Deliverables in {out}/ :
   - patch.diff : `git diff` of ONLY the source change (not the demonstration test), applicable with `git apply` at the repository root of commit HEAD.
